@@ -247,10 +247,10 @@ func (s *Storer) GetReader(offset int64, verifyCrc bool) (*Reader, error) {
 	s.mux.RLock()
 	defer s.mux.RUnlock()
 
-	s.dataSetMux.Lock()
-	defer s.dataSetMux.Unlock()
-
-	ds := s.dataSet
+	// s.mux (held for reading) already excludes everything that swaps or resets
+	// the data set; holding dataSetMux here as well dead-locked against
+	// AofRotateReader.isCorrupted -> hasWriter -> getDataSet when verifyCrc is on
+	ds := s.getDataSet()
 	if !ds.InRange(offset) {
 		return nil, os.ErrNotExist
 	}
